@@ -260,6 +260,26 @@ class C20(Prop):
                     shares = True
                 if res is not None:
                     stt.count("followup:" + op)
+        # hidden state: the same program on the same (shared, hash-consed) operands gives the same result a second time -
+        # a lazily cached array inside an operand (e.g. a Gaussian's covariance) counts as part of the term
+        def value_of(x):
+            if isinstance(x, Tensor):
+                return ("tensor", tuple(x.inputs), np.asarray(x.data, dtype=float))
+            if hasattr(x, "white_vec") and hasattr(x, "prec_sqrt"):
+                return ("gaussian", tuple(x.inputs), np.concatenate([np.asarray(x.white_vec, dtype=float).reshape(-1), np.asarray(x.prec_sqrt, dtype=float).reshape(-1)]))
+            return None
+
+        first_value = value_of(r) if isinstance(r, Funsor) else None
+        if first_value is not None and mode != "eager" or (first_value is not None and case["family"] in ("gauss_int", "gauss_chain")):
+            np.random.seed(case["rng"])
+            r_again = guard(program, "program-again")
+            again = value_of(r_again) if isinstance(r_again, Funsor) else None
+            if again is not None and any("__BOUND" in n_ for n_ in again[1] + first_value[1]):
+                again = None  # lazily built Approximate exposes freshly numbered bound names (open finding of C05)
+            if again is not None and (again[0] != first_value[0] or set(again[1]) != set(first_value[1]) or again[2].shape != first_value[2].shape or not np.allclose(again[2], first_value[2], rtol=1e-9, atol=1e-12, equal_nan=True)):
+                raise Violation("program-result-changes-on-repetition", f"the same program on the same operands gave {first_value[2].reshape(-1)[:6].tolist()} and then {again[2].reshape(-1)[:6].tolist()} (hidden state of an operand was modified): {self.describe(case)}")
+            if again is not None:
+                stt.count("program-repeated")
         if readonly_error[0]:
             raise Violation("write-through-read-only-leaf", f"{readonly_error[0]}: {self.describe(case)}")
         changed = leaves.changed()
